@@ -21,8 +21,19 @@ truncates toward zero".
  R3  the comparison folder's operator table maps every relational operator to
      the Python operator of the same meaning, and folding happens only when both
      sides are constants.
-Not decided: every other rewrite (literal folding, coefficient collection, sign
-handling, powers) -- value-level, not structural.
+ R4  factor lists are multisets: in the simplifier functions an accumulator of
+     factors / denominators / terms is never extended under a guard that tests
+     membership of the very item in that accumulator (``if d not in acc: acc +=
+     [d]`` turns (x/y)*(x/y) into x*x/y).
+ R5  the sign of a product is decided by the *parity* of its ``-1`` factors: a
+     comparison of a count of ``-1`` components must go through ``% 2``.
+ R6  power folding: a fold that yields a literal computed with Python's ``**``
+     is guarded by a positivity test of the exponent (negative exponents of
+     integer bases truncate in Fortran); and a fold that discards the exponent
+     requires the exponent to be a literal, except for base 1 (x**k depends on k
+     for every other x: 0**0 = 1).
+Not decided: every other rewrite (literal folding, coefficient collection) --
+value-level, not structural.
 """
 import ast
 
@@ -124,6 +135,90 @@ def run(ctx):
         ctx.judge('R1', 'no real-only identity reachable', facts={'reachable': sorted(reach)})
 
     _logic_rules(ctx, S)
+    arithmetic_shape_rules(ctx, 'R4', 'R5', 'R6')
+
+
+def arithmetic_shape_rules(ctx, r_multiset, r_parity, r_power):
+    """shape rules of the arithmetic rewrites (shared with C09, whose symbolic comparisons are decided on simplified differences)"""
+    m = ctx.model
+    mod = m.module_by_path(FILE)
+    ctx.rule(r_multiset, 'no accumulator of factors / terms is extended under a membership test of the item in that accumulator')
+    ctx.rule(r_parity, 'counts of -1 factors are compared modulo 2')
+    ctx.rule(r_power, 'map_power: literal results of `**` only under exponent > 0; exponent-discarding folds only for literal exponents or base 1')
+    fns = [f for f in mod.functions.values()] + [mem_ for c in mod.classes.values() for mem_ in
+                                                 (c.function(n_) for n_ in c.members) if mem_ is not None]
+    nacc = npar = 0
+    for f in fns:
+        for site, guards in X.nodes_with_guards(f.node, lambda x: isinstance(x, (ast.AugAssign, ast.Call))):
+            acc = item = None
+            if isinstance(site, ast.AugAssign) and isinstance(site.op, ast.Add) and isinstance(site.target, ast.Name) \
+                    and isinstance(site.value, (ast.List, ast.Tuple)) and len(site.value.elts) == 1:
+                acc, item = site.target.id, ast.unparse(site.value.elts[0])
+            elif isinstance(site, ast.Call) and isinstance(site.func, ast.Attribute) and site.func.attr == 'append' \
+                    and isinstance(site.func.value, ast.Name) and len(site.args) == 1:
+                acc, item = site.func.value.id, ast.unparse(site.args[0])
+            if acc is None:
+                continue
+            nacc += 1
+            dedup = [g for g in guards if g.replace(' ', '') in (f'{item}notin{acc}'.replace(' ', ''), f'not({item}in{acc})'.replace(' ', ''),
+                                                                f'not{item}in{acc}'.replace(' ', ''))]
+            inst = f'{f.qualname}:{acc}+={item}'
+            if dedup:
+                ctx.violation(r_multiset, f'{f.qualname}:{acc}:deduplicated', f'{mod.relpath}:{site.lineno}',
+                              f'`{acc}` collects the factors / denominators of one product or the terms of one sum, but `{item}` is only '
+                              f'added `if {dedup[0]}`: equal factors are dropped ((x/y)*(x/y) becomes x*x/y)', instance=inst)
+            else:
+                ctx.judge(r_multiset, inst, nontrivial=False)
+        for c in ast.walk(f.node):
+            if isinstance(c, ast.Compare) and len(c.ops) == 1:
+                txt = ast.unparse(c.left)
+                counts = ('== -1' in txt and 'sum(' in txt) or '.count(-1)' in txt
+                if not counts:
+                    continue
+                npar += 1
+                inst = f'{f.qualname}:{ast.unparse(c)[:50]}'
+                if isinstance(c.left, ast.BinOp) and isinstance(c.left.op, ast.Mod) and ast.unparse(c.left.right) == '2':
+                    ctx.judge(r_parity, inst)
+                else:
+                    ctx.violation(r_parity, f'{f.qualname}:sign-by-count', f'{mod.relpath}:{c.lineno}',
+                                  f'`{ast.unparse(c)}` decides the sign of a product from the number of its -1 factors without `% 2`: '
+                                  f'three negated factors lose their minus sign')
+    ctx.floor(r_multiset, 'accumulator extensions in the simplifier', nacc, 10)
+    ctx.floor(r_parity, 'sign decisions from -1 counts', npar, 1)
+    # power folding
+    S = mod.classes.get('SimplifyMapper')
+    mp = S.function('map_power')
+    par = [a.arg for a in mp.node.args.args][1]
+    bn = (X.names_assigned_from(mp.node, f'self.rec({par}.base') or ['base'])[0]
+    en = (X.names_assigned_from(mp.node, f'self.rec({par}.exponent') or ['exponent'])[0]
+    bv = (X.names_assigned_from(mp.node, f'{bn}.value') or ['base_value'])[0]
+    ev_ = (X.names_assigned_from(mp.node, f'{en}.value') or ['exponent_value'])[0]
+    nret = 0
+    for ret, guards in X.nodes_with_guards(mp.node, lambda x: isinstance(x, ast.Return) and x.value is not None, early=False):
+        rtxt = ast.unparse(ret.value)
+        if rtxt == f'sym.Power({bn}, {en})':
+            continue
+        nret += 1
+        gt = ' and '.join(guards)
+        inst = f'map_power:return {rtxt[:40]}'
+        if '**' in rtxt:
+            ok = f'{ev_} > 0' in gt or f'{ev_} >= 0' in gt
+            (ctx.judge(r_power, inst, facts={'guards': guards}) if ok else
+             ctx.violation(r_power, 'map_power:negative-exponent-fold', f'{mod.relpath}:{ret.lineno}',
+                           f'`{rtxt}` is computed with Python\'s ** under `{gt}`, which admits negative exponents: 2**(-2) is folded to the '
+                           f'real 0.25 where Fortran integer arithmetic gives 0', facts={'guards': guards}))
+            continue
+        mentions_exp = any(isinstance(x, ast.Name) and x.id in (en, ev_) for x in ast.walk(ret.value))
+        if not mentions_exp:
+            literal_exp = f'isinstance({en}, literal_types)' in gt or f'isinstance({en}, (sym.IntLiteral, sym.FloatLiteral))' in gt
+            base_one = f'{bv} == 1' in gt
+            if literal_exp or base_one:
+                ctx.judge(r_power, inst, facts={'guards': guards})
+            else:
+                ctx.violation(r_power, 'map_power:exponent-discarded', f'{mod.relpath}:{ret.lineno}',
+                              f'`return {rtxt}` under `{gt}` discards an exponent that is not known to be a literal: x**k depends on k for '
+                              f'every base but 1 (0**k is 1 for k = 0)', facts={'guards': guards})
+    ctx.floor(r_power, 'folding returns of map_power', nret, 4)
 
 
 class _Lit:
@@ -256,6 +351,14 @@ def _logic_rules(ctx, S):
 
 
 MUTANTS = [
+    Mutant('power-fold-any-exponent', FILE, "                if isinstance(base, literal_types) and exponent_value > 0 and float(exponent_value).is_integer():",
+           "                if isinstance(base, literal_types) and float(exponent_value).is_integer():", expect=('R6', 'negative-exponent-fold')),
+    Mutant('denominators-deduplicated', FILE, "            denominator += [item.denominator]\n", "            if item.denominator not in denominator:\n                denominator += [item.denominator]\n",
+           expect=('R4', 'deduplicated')),
+    Mutant('sign-by-count-one', FILE, "is_neg = sum(1 for v in components if v == -1) % 2 == 1", "is_neg = sum(1 for v in components if v == -1) == 1", expect=('R5', 'sign-by-count')),
+    Mutant('zero-base-folds', FILE, "            if isinstance(base, literal_types) and base_value == 1:\n                return base\n",
+           "            if isinstance(base, literal_types) and base_value == 1:\n                return base\n            if isinstance(base, literal_types) and base_value == 0:\n                return base\n",
+           expect=('R6', 'exponent-discarded')),
     Mutant('and-any-true-short-circuits', FILE, "            if any(c == 'False' for c in children):\n                return sym.LogicLiteral('False')\n            if any(c == 'True' for c in children):\n                # Trim all literals and return .true. if all were .true.",
            "            if any(c == 'False' for c in children):\n                return sym.LogicLiteral('False')\n            if all(c == 'True' for c in children):\n                return sym.LogicLiteral('True')\n            if any(c == 'True' for c in children):\n                return children[0]\n            if any(c == 'True' for c in children):\n                # Trim all literals and return .true. if all were .true.",
            expect=('R2', 'map_logical_and')),
